@@ -449,44 +449,56 @@ func c01R3(p *Prog, r *Report) {
 			return
 		}
 		r.Fn(FuncName(fn))
-		var ins []ssa.Instruction
+		// a stage may be called directly or inside a helper of the module (to depth 3): the call
+		// path from fn down to the stage call is kept, and order / argument flow are checked along it
+		var paths [][]ssa.Instruction
 		for _, s := range stages {
-			var found ssa.Instruction
-			Instrs(fn, func(in ssa.Instruction) {
-				if found == nil && calleeNamed(in, s.calls...) {
-					if _, isGo := in.(*ssa.Go); !isGo {
-						found = in
-					}
-				}
-			})
-			if found == nil {
+			path := locateCall(p, fn, s.calls, 0)
+			if path == nil {
 				r.Bad("C01.R3", FuncName(fn)+" stage "+s.name, p.Pos(fn.Pos()), "pipeline stage "+s.name+" is not called")
 				return
 			}
-			ins = append(ins, found)
+			paths = append(paths, path)
 		}
-		for i := 1; i < len(ins); i++ {
-			r.Check(InstrDominates(ins[i-1], ins[i]), "C01.R3", fmt.Sprintf("%s: %s before %s", FuncName(fn), stages[i-1].name, stages[i].name), p.InstrPos(ins[i]),
+		for i := 1; i < len(paths); i++ {
+			a, b := paths[i-1], paths[i]
+			k := 0
+			for k < len(a)-1 && k < len(b)-1 && a[k] == b[k] {
+				k++
+			}
+			r.Check(a[k] != b[k] && InstrDominates(a[k], b[k]), "C01.R3", fmt.Sprintf("%s: %s before %s", FuncName(fn), stages[i-1].name, stages[i].name), p.InstrPos(b[k]),
 				"order holds on every path", stages[i].name+" can run without (or before) "+stages[i-1].name)
 		}
 		// the record slice produced by the trigger stage is the one analysed and published
 		var trig ssa.Value
 		for i, s := range stages {
-			if s.name == "trigger" {
-				trig, _ = ins[i].(ssa.Value)
+			if s.name == "trigger" && len(paths[i]) == 1 {
+				trig, _ = paths[i][0].(ssa.Value)
 			}
 		}
 		if trig != nil {
 			for i, s := range stages {
 				if s.name == "analyze" || s.name == "publish" {
-					cc := CallOf(ins[i])
-					same := false
-					for _, a := range cc.Args {
-						if a == trig {
-							same = true
+					// follow the value down the call path: argument -> parameter
+					cur := trig
+					same := true
+					for _, in := range paths[i] {
+						cc := CallOf(in)
+						idx := -1
+						for j, a := range cc.Args {
+							if a == cur {
+								idx = j
+							}
+						}
+						if idx < 0 {
+							same = false
+							break
+						}
+						if callee := cc.StaticCallee(); callee != nil && idx < len(callee.Params) {
+							cur = callee.Params[idx]
 						}
 					}
-					r.Check(same, "C01.R3", fmt.Sprintf("%s: %s receives the triggered records", FuncName(fn), s.name), p.InstrPos(ins[i]), "same SSA value", s.name+" is not given the record slice returned by the trigger stage")
+					r.Check(same, "C01.R3", fmt.Sprintf("%s: %s receives the triggered records", FuncName(fn), s.name), p.InstrPos(paths[i][0]), "same SSA value (followed through helper parameters)", s.name+" is not given the record slice returned by the trigger stage")
 				}
 			}
 		}
@@ -611,4 +623,46 @@ func c01R4(p *Prog, r *Report) {
 		})
 	}
 	r.Check(len(bad) == 0 && n > 0, "C01.R4", "writers of stream buffer and labels", "-", fmt.Sprintf("%d stores, all inside DataStream methods", n), "stream bookkeeping is written outside DataStream's own methods: "+strings.Join(bad, "; "))
+}
+
+// locateCall finds a call of one of the named functions in fn, directly or inside a module
+// helper fn calls (depth <= 3, no goroutines); returns the chain of call instructions from fn
+// down to the direct call.
+func locateCall(p *Prog, fn *ssa.Function, names []string, depth int) []ssa.Instruction {
+	var direct ssa.Instruction
+	Instrs(fn, func(in ssa.Instruction) {
+		if direct == nil && calleeNamed(in, names...) {
+			if _, isGo := in.(*ssa.Go); !isGo {
+				direct = in
+			}
+		}
+	})
+	if direct != nil {
+		return []ssa.Instruction{direct}
+	}
+	if depth >= 3 {
+		return nil
+	}
+	var out []ssa.Instruction
+	Instrs(fn, func(in ssa.Instruction) {
+		if out != nil {
+			return
+		}
+		if _, isGo := in.(*ssa.Go); isGo {
+			return
+		}
+		cc := CallOf(in)
+		if cc == nil || cc.StaticCallee() == nil || cc.StaticCallee().Blocks == nil {
+			return
+		}
+		callee := cc.StaticCallee()
+		pk := fnPkg(callee)
+		if pk == nil || !strings.HasPrefix(pk.Path(), modPath) || callee == fn {
+			return
+		}
+		if sub := locateCall(p, callee, names, depth+1); sub != nil {
+			out = append([]ssa.Instruction{in}, sub...)
+		}
+	})
+	return out
 }
